@@ -85,6 +85,11 @@ func genOptsFor(profile string) GenOpts {
 	case "range", "agg", "bin", "func":
 		o.Focus = profile
 		o.MaxDepth = 2
+	case "upper":
+		// aggregations over series that also carry a label whose name starts with an upper-case letter
+		o.Focus = "agg"
+		o.MaxDepth = 2
+		o.UpperLabel = true
 	case "nans":
 		// aggregations over data in which one sample in six is NaN (and none is infinite)
 		o.Focus = "agg"
